@@ -1218,7 +1218,12 @@ func (x *runner) serveQueries() {
 		if end-start > 2000 {
 			end = start + 2000
 		}
-		got, ok := c.AskHeaders(loc, stop, 15*time.Second)
+		// nothing to send is answered by an empty message or by silence: do not wait long for the latter
+		wd := 15 * time.Second
+		if end == start {
+			wd = 400 * time.Millisecond
+		}
+		got, ok := c.AskHeaders(loc, stop, wd)
 		x.count("wire_getheaders_asked", 1)
 		if !ok {
 			if end == start {
@@ -1228,10 +1233,6 @@ func (x *runner) serveQueries() {
 			if c.Dead() {
 				x.fail("served-headers|"+x.s.Engine+"|stop="+stopClass+"|connection-dropped-instead-of-an-answer", fmt.Sprintf("the service dropped the connection of a peer that asked getheaders (start %d, expected %d headers)", start, end-start))
 				return
-			}
-			if x.s.Engine == "exp" {
-				x.count("exp_getheaders_unanswered", 1)
-				continue
 			}
 			x.fail("served-headers|"+x.s.Engine+"|stop="+stopClass+"|no-reply", fmt.Sprintf("the service did not answer getheaders (start %d, expected %d headers) within the watchdog", start, end-start))
 			return
